@@ -166,7 +166,7 @@ def _network():
 # consensus
 # --------------------------------------------------------------------------
 
-def consensus_cfg(rng, nmin=3, nmax=5, horizon_s=4.0):
+def consensus_cfg(rng, nmin=3, nmax=5, horizon_s=2.5):
     n = rng.randint(nmin, nmax)
     c = flow_cfg(rng, n=rng.randint(3, 14), span=horizon_s / 2)
     c.update(net=gen_net(rng, n, horizon_s, scale=rng.choice([0.002, 0.01, 0.03])), horizon=horizon_s)
@@ -192,7 +192,7 @@ def _raft():
         c = consensus_cfg(rng)
         et = rng.choice([0.05, 0.15, 0.3])
         c.update(et_min=et, et_max=round(et * rng.choice([1.0, 1.5, 2.0]), 6), hb=round(et * rng.choice([0.1, 0.3, 1.0]), 6))
-        c["arr"], c["tags"] = arrivals(rng, len(c["arr"]), 2.0, [c["hb"], c["et_min"]])
+        c["arr"], c["tags"] = arrivals(rng, len(c["arr"]), 1.2, [c["hb"], c["et_min"]])
         return c
 
     def build(z, c):
@@ -218,7 +218,7 @@ def _raft():
 @driver("PaxosNode", ["PaxosNode"])
 def _paxos():
     def gen(rng):
-        c = consensus_cfg(rng, horizon_s=3.0)
+        c = consensus_cfg(rng, horizon_s=2.0)
         c.update(retry=rng.choice([0.0, 0.01, 0.1, 0.5]))
         c["arr"], c["tags"] = arrivals(rng, rng.randint(1, 6), 1.0, [c["retry"]])
         return c
@@ -274,7 +274,7 @@ def _multipaxos():
         hb = rng.choice([0.02, 0.1, 0.3])
         c.update(hb=hb, lease=round(hb * rng.choice([1.0, 2.5, 5.0]), 6), starters=[rng.randrange(5) for _ in range(rng.randint(1, 2))],
                  start_at=[0, rng.randrange(0, 10**8)])
-        c["arr"], c["tags"] = arrivals(rng, len(c["arr"]), 2.0, [hb, c["lease"]])
+        c["arr"], c["tags"] = arrivals(rng, len(c["arr"]), 1.2, [hb, c["lease"]])
         return c
     build = _mp_build(MultiPaxosNode, "m", lambda c, n: {"leader_lease_timeout": check_num(c["lease"], 1e-4),
                                                         "heartbeat_interval": check_num(c["hb"], 1e-4)})
@@ -290,7 +290,7 @@ def _flexpaxos():
         q1 = rng.randint(1, n)
         c.update(hb=hb, q1=q1, q2=n + 1 - q1, starters=[rng.randrange(5) for _ in range(rng.randint(1, 2))],
                  start_at=[0, rng.randrange(0, 10**8)])
-        c["arr"], c["tags"] = arrivals(rng, len(c["arr"]), 2.0, [hb])
+        c["arr"], c["tags"] = arrivals(rng, len(c["arr"]), 1.2, [hb])
         return c
     build = _mp_build(FlexiblePaxosNode, "f", lambda c, n: {"phase1_quorum": int(c["q1"]), "phase2_quorum": int(c["q2"]),
                                                           "heartbeat_interval": check_num(c["hb"], 1e-4)})
@@ -432,7 +432,7 @@ def repl_feed(z, c, nodes, pick):
     for tag in c.get("tags", []):
         z.probe(f"probe.arr_{tag}")
     z.at_end = lambda: finish_net(z)
-    z.horizon_ns = horizon(c, 4)
+    z.horizon_ns = horizon(c, 2.5)
 
 
 @driver("PrimaryBackup", ["PrimaryNode", "BackupNode"])
@@ -546,7 +546,7 @@ def _crdt():
                 md.update(value=(1 + i % 3) if op == "increment" else f"v{i}", operation=op)
             z.at(t, nodes[i % n], "Write" if kind == "w" else "Read", {"metadata": md})
         z.at_end = lambda: finish_net(z)
-        z.horizon_ns = horizon(c, 4)
+        z.horizon_ns = horizon(c, 2.5)
     return gen, build
 
 
@@ -733,4 +733,104 @@ def _sketches():
         for tag in c.get("tags", []):
             z.probe(f"probe.arr_{tag}")
         z.horizon_ns = horizon(c, 3 + c["st"] * len(c["arr"]))
+    return gen, build
+
+
+# --------------------------------------------------------------------------
+# random pipelines: repo components composed with each other
+# --------------------------------------------------------------------------
+
+STAGES = ["null", "rl", "inductor", "conveyor", "gate", "batch", "inspect", "pooled", "server", "bulkhead", "cb", "timeout",
+          "hedge", "fallback", "lb", "router", "cond", "idem", "sidecar", "gateway", "link", "client", "queue", "shifted",
+          "splitmerge", "drl"]
+
+
+@driver("Pipeline", ["Server"])
+def _pipeline():
+    def gen(rng):
+        k = rng.randint(2, 5)
+        c = flow_cfg(rng, n=rng.randint(6, 30))
+        c.update(stages=[{"kind": rng.choice(STAGES), "t": lat(rng, hi=0.05), "t2": lat(rng, zero_p=0.0, hi=0.08), "n": rng.randint(1, 3)}
+                         for _ in range(k)], svc=svc_times(rng))
+        return c
+
+    def build(z, c):
+        from simkit.c10_model import build_policy
+        from simkit import c07_drv_flow as F
+        stages = c["stages"]
+        if not 1 <= len(stages) <= 8:
+            raise InvalidScenario("stages")
+        nxt = z.svc("tail_svc", c["svc"], forward=z.sink())
+        for i, s in reversed(list(enumerate(stages))):
+            kind, t, t2, n = s["kind"], check_num(s["t"]), check_num(s["t2"], 1e-6), int(s["n"])
+            nm = f"st{i}_{kind}"
+            if kind == "null":
+                e = F.NullRateLimiter(nm, downstream=nxt)
+            elif kind == "rl":
+                e = F.RateLimitedEntity(nm, downstream=nxt, policy=build_policy({"type": "token", "capacity": float(n), "rate": 1.0 / t2})[0],
+                                        queue_capacity=10)
+            elif kind == "inductor":
+                e = F.Inductor(nm, downstream=nxt, time_constant=t)
+            elif kind == "conveyor":
+                e = F.ConveyorBelt(nm, downstream=nxt, transit_time=t, capacity=0)
+            elif kind == "gate":
+                e = F.GateController(nm, downstream=nxt, schedule=[(t2, t2 * 3), (t2 * 5, t2 * 6)], initially_open=bool(n % 2))
+                z.after_init(lambda e=e: e.start_events())
+            elif kind == "batch":
+                e = F.BatchProcessor(nm, downstream=nxt, batch_size=n, process_time=t, timeout_s=t2)
+            elif kind == "inspect":
+                e = F.InspectionStation(nm, pass_target=nxt, fail_target=nxt, inspection_time=t, pass_rate=0.5)
+            elif kind == "pooled":
+                e = F.PooledCycleResource(nm, pool_size=n, cycle_time=t, downstream=nxt)
+            elif kind == "server":
+                e = Server(nm, concurrency=n, service_time=ConstantLatency(t), downstream=nxt)
+            elif kind == "bulkhead":
+                e = F.Bulkhead(nm, target=nxt, max_concurrent=n, max_wait_queue=5, max_wait_time=t2)
+            elif kind == "cb":
+                e = F.CircuitBreaker(nm, target=nxt, failure_threshold=n, timeout=t2)
+            elif kind == "timeout":
+                e = F.TimeoutWrapper(nm, target=nxt, timeout=t2)
+            elif kind == "hedge":
+                e = F.Hedge(nm, target=nxt, hedge_delay=t2, max_hedges=n)
+            elif kind == "fallback":
+                e = F.Fallback(nm, primary=nxt, fallback=nxt, timeout=t2)
+            elif kind == "lb":
+                e = LoadBalancer(nm, backends=[nxt])
+            elif kind == "router":
+                e = F.RandomRouter(nm, targets=[nxt])
+            elif kind == "cond":
+                e = F.ConditionalRouter(nm, routes=[(lambda ev: True, nxt)])
+            elif kind == "idem":
+                e = F.IdempotencyStore(nm, target=nxt, key_extractor=lambda ev: str((ev.context.get("metadata") or {}).get("i", 0) % 4),
+                                       ttl=t2, cleanup_interval=t2)
+            elif kind == "sidecar":
+                e = F.Sidecar(nm, target=nxt, request_timeout=t2, max_retries=n, retry_base_delay=t)
+            elif kind == "gateway":
+                e = F.APIGateway(nm, routes={"a": F.RouteConfig(name="a", backends=[nxt], timeout=t2)}, auth_latency=t,
+                                 route_extractor=lambda ev: "a")
+            elif kind == "link":
+                e = NetworkLink(nm, latency=chaosnet.KeyedLatency(int(z.sc.get("net_seed", 1)), nm, {"base": t, "jitter": t2}), egress=nxt)
+            elif kind == "client":
+                e = F.Client(nm, target=nxt, timeout=t2, retry_policy=F.FixedRetry(max_attempts=n, delay=t))
+            elif kind == "queue":
+                q = F.Queue(name=nm, egress=None, policy=F.FIFOQueue())
+                d = F.QueueDriver(name=nm + "_drv", queue=q, target=nxt)
+                q.egress = d
+                z.add(d)
+                e = q
+            elif kind == "shifted":
+                e = F.ShiftedServer(nm, schedule=F.ShiftSchedule([F.Shift(0.0, 1.0, n), F.Shift(1.0, 64.0, 1)], default_capacity=1),
+                                    service_time=t, downstream=nxt)
+            elif kind == "splitmerge":
+                e = F.SplitMerge(nm, targets=[z.svc(nm + "_a", [t]), z.svc(nm + "_b", [t2])], downstream=nxt)
+            elif kind == "drl":
+                store = z.add(KVStore(nm + "_store", read_latency=t, write_latency=t))
+                e = F.DistributedRateLimiter(nm, downstream=nxt, backing_store=store, global_limit=5 * n, window_size=t2)
+            else:
+                raise InvalidScenario("stage kind")
+            z.add(e)
+            nxt = e
+        z.touch("Server")
+        feed(z, c, nxt)
+        z.horizon_ns = horizon(c, 8 + sum(s["t"] + s["t2"] * 6 for s in stages) * 3)
     return gen, build
